@@ -212,10 +212,23 @@ def run_config(acc, shape, src, od, S, tier):
             if runner == "async" and pname in ("d3", "d2-around") and tier == "quick":
                 continue
             np_, _ = place_bindings(nested, src, wrapper)
-            for rename in (False, True):
+            for rename in (False, True, "swap"):
                 rn_in, rn_out = {}, {}
                 cand = np_
-                if rename:
+                if rename == "swap":
+                    # ONE with_inputs() call exchanging two wrapper inputs (a parallel rename that re-uses both names)
+                    cand = copy.deepcopy(np_)
+                    w = next(s for s in cand["nodes"] if s["id"] == wrapper)
+                    w_ins, _ = spec_io(w)
+                    outer_consumed = {p for s in cand["nodes"] if s["id"] != wrapper for p in spec_io(s)[0]}
+                    sw = [p for p in w_ins if p.startswith("e") and p not in outer_consumed]
+                    if len(sw) < 2:
+                        continue
+                    rn_in = {sw[0]: sw[1], sw[1]: sw[0]}
+                    w["rename_in"] = rn_in
+                    if cand.get("bind"):
+                        cand["bind"] = {rn_in.get(k, k): v for k, v in cand["bind"].items()}
+                elif rename:
                     cand = copy.deepcopy(np_)
                     w = next(s for s in cand["nodes"] if s["id"] == wrapper)
                     w_ins, w_outs = spec_io(w)
